@@ -104,7 +104,7 @@ def _potential(spec, pts, c0):
     return out
 
 
-MOL_ACC_BOUND = 1.0e-2  # multi-centre molecular grids (40-50 radial nodes, degree 11-15 per atom): the test-suite's own level; measured <= 1.5e-3
+MOL_ACC_BOUND = 2.0e-2  # multi-centre molecular grids (40-50 radial nodes, degree 11-15 per atom): the test-suite's own level is 1e-2; measured <= 3.3e-3 (gross errors are O(0.1-1))
 MOL_SPREAD_TOL_FACTOR = 0.5  # many tiny high-l channels, each refined from its own draw (measured <= 0.02 tol)
 
 
@@ -297,7 +297,7 @@ def _op_mrobust(ctx, op, state):
     holder = {}
 
     def call():
-        holder["pot"] = solve_poisson_robust(g, rho, state["tf"], np.array([m["atoms"][i]["z"] for i in order]), cen[order].copy(), ode_params=state["params"])
+        holder["pot"] = solve_poisson_robust(g, rho, state["tf"], np.array([m["atoms"][i]["z"] for i in order]), cen[order].copy(), ode_params=state["params"], **dict(ctx.spec["grid"].get("opts") or {}))
         return holder["pot"](pts)
 
     oc = _outcome(call)
@@ -710,7 +710,7 @@ class PoissonSeamEngine:
 
     def submodes(self, tier):
         if tier == "quick":
-            return [("atomic", 170), ("molecular", 32)]
+            return [("atomic", 170), ("molecular", 16)]
         return [("atomic", 12000), ("molecular", 1500)]
 
     def determinism_sample(self, tier):
